@@ -155,6 +155,8 @@ class G:
         if who == HUMAN:
             if (pre_ckpt if pre_ckpt is not None else self.human_pre_ckpt) or self.gated("initial_positional"):
                 op["pre_ckpt"] = True
+        elif self.cfg.get("dirty_buffers") and new is not None and rng.random() < 0.3:
+            op["dirty"] = True      # reported from an unsaved editor buffer (dirty_files)
         return op
 
     def ai_edit(self, **kw):
@@ -209,6 +211,7 @@ def resolve_loop(g, continue_cmd, abort_cmd, allow_abort=True, strategy=None, mu
             return
         g.ex.probe("conflict.stop")
         if must_abort or (allow_abort and g.rng.random() < 0.25):
+            g.ex.gen_state["aborted"] = True
             yield g.git(*abort_cmd, aborts=True)
             return
         if g.has_conflicts():
@@ -269,8 +272,15 @@ def fam_rebase(g, kind="plain"):
                 yield g.git("add", "-A")
                 yield g.git("commit", "-q", "--amend", "--no-edit")
             yield g.git("rebase", "--continue", env={"GIT_EDITOR": "true"}, check=True)
-    yield from resolve_loop(g, ["rebase", "--continue"], ["rebase", "--abort"],
-                            must_abort=(n > 1 and g.gated("rebase_conflict_multi_commit")))
+    g.ex.gen_state["aborted"] = False
+    multi_gate = n > 1 and g.gated("rebase_conflict_multi_commit")
+    yield from resolve_loop(g, ["rebase", "--continue"], ["rebase", "--abort"], must_abort=multi_gate)
+    if g.ex.gen_state.get("aborted") and not g.in_progress() and not multi_gate and kind != "interactive" \
+            and rng.random() < 0.6:
+        # after giving up, the person starts the same rebase again and this time resolves the conflict
+        g.ex.probe("rebase.again_after_abort")
+        yield g.git("rebase", base_branch, rewrite=True)
+        yield from resolve_loop(g, ["rebase", "--continue"], ["rebase", "--abort"], allow_abort=False)
     if g.head() != before:
         g.ex.probe("rebase.rewrote")
 
@@ -321,8 +331,14 @@ def fam_cherry_pick(g):
         yield g.git("cherry-pick", "src~%d..src" % n, rewrite=True)
     else:
         yield g.git("cherry-pick", "src~%d" % rng.randint(0, n - 1), rewrite=True)
+    g.ex.gen_state["aborted"] = False
     yield from resolve_loop(g, ["cherry-pick", "--continue"], ["cherry-pick", "--abort"],
                             must_abort=(ranged and g.gated("pick_conflict_multi_commit_notes")))
+    if g.ex.gen_state.get("aborted") and not g.in_progress() and rng.random() < 0.8:
+        # after giving up, the person picks something else (or the same commit again) and sees it through
+        g.ex.probe("cherry_pick.again_after_abort")
+        yield g.git("cherry-pick", "src~%d" % rng.randint(0, n - 1), rewrite=True)
+        yield from resolve_loop(g, ["cherry-pick", "--continue"], ["cherry-pick", "--abort"], allow_abort=False)
 
 
 def fam_amend(g):
@@ -764,6 +780,12 @@ def fam_pull(g):
         yield {"op": "resolve", "strategy": "union", "dt": g.dt(), "relax": "one_sided"}
         yield g.git("reset", "-q")
     yield from g.commit_all()
+    if rng.random() < 0.6:
+        # publish: the wrapper pushes the notes beside the user's push
+        g.ex.probe("pull.then_push")
+        yield g.git("push", "-q", "origin", "HEAD:main")
+        if rng.random() < 0.5:
+            yield g.git("fetch", "-q", "origin")
 
 
 def fam_switch_merge(g):
